@@ -3609,3 +3609,245 @@ def layout_tables(ctx, mir, stats):
             detail = "%s differs from %s: %s" % (name, entry["ref"], ("first difference: code has %s, reference has %s" % diff[0]) if diff else "field count %d vs %d (code %s)" % (len(got or []), len(ref), [x for x in (got or []) if x not in ref][:3]))
         obs.append({"id": "layout:%s" % name, "ok": ok, "functions": [f.name], "where": f.name, "needs_native": True, "native": None if ok else _layout_native(name, entry), "detail": detail})
     return obs
+
+
+# --------------------------------------------------------------------------
+# C20 (sequential kernel): the GUI client's receive loop — exits, guard release, forwarding
+# --------------------------------------------------------------------------
+ERROR_VARIANTS = ["RdpError", "Io", "SslHandshakeError", "SslError", "ASN1Error", "TryError"]
+
+
+def _receive_loop_native(ctx):
+    from vrun import _cut_fn
+    txt = open(os.path.join(ctx["src"], "src", "bin", "mstsc-rs.rs")).read()
+    body = _cut_fn(txt, r"fn launch_rdp_thread<[^>]*>\s*\(", "launch_rdp_thread")
+    test = """
+#[cfg(test)]
+mod verif_replay_receive_loop_mod {
+    use super::*;
+    #[allow(unused_imports)]
+    use std::sync::{Arc, Mutex};
+    #[allow(unused_imports)]
+    use std::sync::mpsc::{channel, Sender, Receiver};
+    #[allow(unused_imports)]
+    use std::sync::atomic::{AtomicBool, Ordering};
+    #[allow(unused_imports)]
+    use std::thread::{self, JoinHandle};
+    #[allow(unused_imports)]
+    use std::io::{Cursor, Read, Write};
+    use std::time::Duration;
+    use model::link::{Link, Stream};
+    #[allow(unused_imports)]
+    use core::event::{RdpEvent, BitmapEvent};
+    #[allow(unused_imports)]
+    use model::error::{Error, RdpError, RdpErrorKind, RdpResult};
+    use core::{tpkt, x224, mcs, global};
+    use core::gcc::KeyboardLayout;
+    #[allow(dead_code)]
+    const APPLICATION_NAME: &str = "mstsc-rs";
+    /// environment stub: select(2) reports a closed or shut-down descriptor as readable, so the loop is never parked by it
+    fn wait_for_fd(_fd: usize) -> bool { true }
+
+    // ---- launch_rdp_thread, text-identical to src/bin/mstsc-rs.rs ----
+    %s
+    // ------------------------------------------------------------------
+
+    fn client(bytes: Vec<u8>) -> RdpClient<Cursor<Vec<u8>>> {
+        let x = x224::verif_new_x224(tpkt::Client::new(Link::new(Stream::Raw(Cursor::new(bytes)))));
+        RdpClient { mcs: mcs::Client::new(x), global: global::Client::new(1007, 1003, 800, 600, KeyboardLayout::US, "verif") }
+    }
+
+    #[test]
+    fn verif_replay_receive_loop() {
+        let cases: Vec<(&str, Vec<u8>)> = vec![
+            ("the peer closed the connection (end of stream)", vec![]),
+            ("the connection ended inside a frame", vec![3, 0, 0, 20, 2, 0xf0]),
+            ("a disconnect provider ultimatum", vec![3, 0, 0, 9, 2, 0xf0, 0x80, 0x21, 0x80]),
+            ("an undecodable PDU followed by the end of the stream", vec![3, 0, 0, 9, 2, 0xf0, 0x80, 0xff, 0xff]),
+        ];
+        for (what, bytes) in cases {
+            let (tx, _rx) = channel();
+            let handle = launch_rdp_thread(0, Arc::new(Mutex::new(client(bytes))), Arc::new(AtomicBool::new(true)), tx).unwrap();
+            let (dtx, drx) = channel();
+            thread::spawn(move || { let _ = handle.join(); let _ = dtx.send(()); });
+            assert!(drx.recv_timeout(Duration::from_secs(5)).is_ok(), "the receive thread is still running 5 s after {}", what);
+        }
+    }
+}
+""" % body.replace("\n", "\n    ")
+    helper = """
+#[cfg(test)]
+pub fn verif_new_x224<S: Read + Write>(transport: tpkt::Client<S>) -> Client<S> { Client::new(transport, Protocols::ProtocolSSL) }
+"""
+    return {"test": "verif_replay_receive_loop", "files": {"src/core/client.rs": test, "src/core/x224.rs": helper}}
+
+
+def gui_receive_loop(ctx, mir, stats):
+    """E3 over the MIR of the GUI binary: the closure run by the receive thread is explored path by path with the result of RdpClient::read, the
+    readiness test and the stop flag as free symbols (the environment: socket, TLS, other thread). Decided: which outcomes of one iteration re-enter
+    the loop and which leave it; that the client lock is released before either; that every bitmap event is forwarded exactly once."""
+    from mirq import prepare_bin_mir
+    bm = prepare_bin_mir(ctx)
+    f = find_fn(bm, r"^launch_rdp_thread::\{closure#0\}$")
+    cb = find_fn(bm, r"^launch_rdp_thread::\{closure#0\}::\{closure#0\}$")
+    obs = []
+    heads = call_blocks(f, r"^wait_for_fd$")
+    reads = call_blocks(f, r"RdpClient::<S>::read::<")
+    locks = call_blocks(f, r"Mutex::<RdpClient<S>>::lock$")
+    loads = call_blocks(f, r"AtomicBool::load$")
+    if len(heads) != 1 or len(reads) != 1 or len(locks) != 1 or len(loads) != 1:
+        raise Inconclusive("ENCODING-FAILED: receive loop shape not recognised: wait_for_fd %s, read %s, lock %s, flag load %s" % (heads, reads, locks, loads))
+    L, R = heads[0], reads[0]
+    native = None
+    try:
+        native = _receive_loop_native(ctx)
+    except Exception as e:
+        native = None
+    se = SymExec(f, stats, loop_bound=0, max_paths=4000).run()
+    rdest = f.blocks[R].t["dest"]
+    dkey = "discr(%s)" % rdest
+    ekey_re = re.compile(r"^discr\(\(\(%s as Err\)\.0: [^)]*\)\)$" % re.escape(rdest))
+    guard = None
+    for b in f.order:
+        t = f.blocks[b].t
+        if t and t["kind"] == "call" and re.search(r"Result::<std::sync::MutexGuard<.*>::unwrap$", t["func"]):
+            guard = t["dest"]
+    if guard is None:
+        raise Inconclusive("ENCODING-FAILED: the lock guard local was not found")
+
+    def after_read(p):
+        return R in p.trace
+
+    def released(p):
+        tr = p.trace[p.trace.index(R):]
+        return any(f.blocks[b.split(" ")[0]].t and f.blocks[b.split(" ")[0]].t["kind"] == "drop" and re.search(r"drop\(%s\)" % re.escape(guard), f.blocks[b.split(" ")[0]].t["text"]) for b in tr if b.split(" ")[0] in f.blocks)
+    looped = [(p, b) for p, b in se.looped if b == L]
+    if any(b != L for p, b in se.looped):
+        raise Inconclusive("ENCODING-FAILED: a second loop was found in the receive closure")
+    # O1: a path that re-enters the loop after a read must have seen Ok
+    bad_variants = set()
+    ok_continue = False
+    for p, _b in looped:
+        if not after_read(p):
+            continue
+        d = p.env.get(dkey)
+        if d is None:
+            raise Inconclusive("ENCODING-FAILED: the result of RdpClient::read is not tested on a path that continues the loop")
+        s = z3.Solver()
+        for c in p.cond:
+            s.add(c)
+        s.push(); s.add(d == 1); stats.queries += 1
+        if s.check() == z3.sat:
+            ek = next((k for k in p.env if ekey_re.match(k)), None)
+            if ek is None:
+                bad_variants.update(ERROR_VARIANTS)
+            else:
+                for i, nm in enumerate(ERROR_VARIANTS):
+                    s.push(); s.add(p.env[ek] == i); stats.queries += 1
+                    if s.check() == z3.sat:
+                        bad_variants.add(nm)
+                    s.pop()
+        s.pop()
+        s.push(); s.add(d == 0); stats.queries += 1
+        if s.check() == z3.sat:
+            ok_continue = True
+        s.pop()
+    obs.append({"id": "receive-loop:every-error-leaves-the-loop", "ok": not bad_variants, "functions": [f.name], "where": f.name, "needs_native": True, "native": None if not bad_variants else native,
+                "cex": {"read result": "Err(Error::%s(..))" % sorted(bad_variants)[0]} if bad_variants else None,
+                "detail": "no path re-enters the wait after RdpClient::read returned an error: the thread ends with the session" if not bad_variants else
+                "after RdpClient::read returns Err(Error::%s) the closure goes back to wait_for_fd: on a closed or shut-down connection (Link::read fails with Error::Io on end of stream) the thread never stops, select reports the dead descriptor readable and the loop spins" % "/".join(sorted(bad_variants))})
+    obs.append({"id": "receive-loop:continues-after-ok", "ok": ok_continue, "functions": [f.name], "where": f.name, "needs_native": True, "native": None if ok_continue else native,
+                "detail": "after a successful read the closure waits for the next PDU" if ok_continue else "no path continues the loop after a successful read"})
+    # O3: the loop is entered only when the descriptor is ready and the stop flag is set; either one false ends the thread
+    wdest, ldest = f.blocks[L].t["dest"], f.blocks[loads[0]].t["dest"]
+    early = [p for p in se.finished if not after_read(p)]
+    conds_ok = True
+    for p, _b in looped + [(q, None) for q in se.finished if after_read(q)]:
+        s = z3.Solver()
+        for c in p.cond:
+            s.add(c)
+        ws = [ev[3] for ev in p.events if ev[0] == "callret" and ev[4] == wdest]
+        ls = [ev[3] for ev in p.events if ev[0] == "callret" and ev[4] == ldest]
+        if not ws or not ls or ws[0] is None or ls[0] is None:
+            conds_ok = False
+            continue
+        s.add(z3.Or(ws[0] == 0, ls[0] == 0)); stats.queries += 1
+        if s.check() == z3.sat:
+            conds_ok = False
+    obs.append({"id": "receive-loop:guarded-by-readiness-and-flag", "ok": conds_ok and len(early) >= 2, "functions": [f.name], "where": f.name, "needs_native": True, "native": None,
+                "detail": "the client is locked and read only when wait_for_fd returned true and the shared flag is set; each of them false ends the thread (%d exits before the lock)" % len(early) if conds_ok and len(early) >= 2 else
+                "the loop can lock/read although wait_for_fd or the stop flag said no, or has no exit on them"})
+    # O4: the guard is dropped on every path between the read and the next wait / the return
+    unreleased = [p.trace[-6:] for p, _b in looped if after_read(p) and not released(p)] + [p.trace[-6:] for p in se.finished if after_read(p) and not released(p)]
+    obs.append({"id": "receive-loop:lock-released-each-iteration", "ok": not unreleased, "functions": [f.name], "where": f.name, "needs_native": True, "native": None,
+                "detail": "the client mutex guard is dropped on every path from the read to the next wait_for_fd and to the end of the thread" if not unreleased else "paths keep the guard: %s" % unreleased[:2]})
+    # O5: callback: Bitmap -> exactly one send of that bitmap (unwrap on the result), other events -> no send
+    sends = call_blocks(cb, r"mpsc::Sender::<BitmapEvent>::send$")
+    ce = SymExec(cb, stats, loop_bound=0).run()
+    okcb = len(sends) == 1
+    seen_bitmap = False
+    for p in ce.finished:
+        n = len(calls_on(p.events, r"mpsc::Sender::<BitmapEvent>::send$"))
+        d = p.env.get("discr(_2)")
+        if d is None:
+            okcb = False
+            continue
+        s = z3.Solver()
+        for c in p.cond:
+            s.add(c)
+        s.push(); s.add(d == 0); isb = s.check() == z3.sat; s.pop()
+        s.push(); s.add(d != 0); iso = s.check() == z3.sat; s.pop()
+        stats.queries += 2
+        if isb and iso:
+            okcb = False
+        if isb:
+            seen_bitmap = True
+            i, ev = (calls_on(p.events, r"mpsc::Sender::<BitmapEvent>::send$") or [(None, None)])[0]
+            src = resolve_source(p.events, i, ev[4][1], depth=6) if ev else ""
+            if n != 1 or not re.search(r"\(_2 as Bitmap\)\.0", src):
+                okcb = False
+        elif n != 0:
+            okcb = False
+    obs.append({"id": "receive-loop:every-bitmap-forwarded-once", "ok": okcb and seen_bitmap, "functions": [cb.name], "where": cb.name, "needs_native": True, "native": None,
+                "detail": "the read callback sends the payload of every RdpEvent::Bitmap on the channel exactly once (in the order RdpClient::read delivers them) and nothing else" if okcb and seen_bitmap else
+                "the callback does not forward each bitmap event exactly once"})
+    return obs
+
+
+def disconnect_mapping(ctx, mir, stats):
+    """E3 over mcs::Client::read: the PDU whose opcode (first byte >> 2) is 8 (T.125 disconnectProviderUltimatum) - and only that one - is
+    returned as Err(RdpError(Disconnect)); it is never handed on as data."""
+    f = find_fn(mir, r"^mcs::<impl at src/core/mcs\.rs[^>]*>::read$")
+    se = SymExec(f, stats, loop_bound=0, max_paths=6000).run()
+    obs = []
+    disc, data = [], []
+    for p in se.finished:
+        sh = [ev for ev in p.events if ev[0] == "assign" and ev[3].startswith("Shr(") and ev[4] is not None]
+        if not sh:
+            continue
+        S = sh[0][4]
+        is_disc = any(ev[0] == "assign" and "RdpErrorKind::Disconnect" in ev[3] for ev in p.events)
+        is_data = bool(calls_on(p.events, r"read_integer_16$"))
+        if is_disc:
+            disc.append((p, S))
+        elif is_data:
+            data.append((p, S))
+    if not disc:
+        return [{"id": "mcs-read:ultimatum-is-disconnect", "ok": False, "functions": [f.name], "where": f.name, "needs_native": True, "native": None,
+                 "detail": "no path of mcs::Client::read builds RdpErrorKind::Disconnect: a disconnect provider ultimatum is not reported as the end of the session"}]
+    ok1 = True
+    for p, S in disc:
+        verdict, mdl, smt = se.check(p, [S != z3.BitVecVal(8, S.size())], "disconnect only for opcode 8")
+        cvc5_check(smt, verdict, stats)
+        ok1 = ok1 and verdict == "unsat"
+        ret = [ev[3] for ev in p.events if ev[0] == "assign" and ev[2].strip() == "_0"]
+        ok1 = ok1 and bool(ret) and ret[-1].startswith("Result::<") and "::Err(" in ret[-1]
+    obs.append({"id": "mcs-read:disconnect-only-for-ultimatum", "ok": ok1, "functions": [f.name], "where": f.name, "needs_native": False,
+                "detail": "Err(RdpError(Disconnect)) is returned exactly on the paths whose opcode (byte >> 2) is 8" if ok1 else "RdpErrorKind::Disconnect is produced for an opcode other than 8, or not returned as Err"})
+    ok2 = bool(data)
+    for p, S in data:
+        verdict, mdl, smt = se.check(p, [S == z3.BitVecVal(8, S.size())], "ultimatum never handled as data")
+        ok2 = ok2 and verdict == "unsat"
+    obs.append({"id": "mcs-read:ultimatum-never-data", "ok": ok2, "functions": [f.name], "where": f.name, "needs_native": False,
+                "detail": "no path with opcode 8 goes on to parse a send-data indication" if ok2 else "an ultimatum can be parsed as data"})
+    return obs
